@@ -80,6 +80,7 @@ func checkMain(args []string) int {
 	runsFlag := fs.Int("runs", 0, "override the number of runs")
 	workers := fs.Int("workers", 0, "worker processes (default: CPUs)")
 	noMin := fs.Bool("no-minimize", false, "skip minimisation")
+	scale := fs.Float64("scale", 1, "scale the planned number of runs (development)")
 	fs.Parse(args[1:])
 	seed := uint64(1)
 	if s := os.Getenv("VERIF_SEED"); s != "" {
@@ -116,9 +117,51 @@ func checkMain(args []string) int {
 		W = total
 	}
 	t0 := time.Now()
+	// The sampling plan: (profile, number of runs). quick: the property's own
+	// profiles at their shares. thorough: the same, 16 times as many; plus the
+	// same profiles with chaos phases three times as long and more proposals
+	// and membership changes ("+deep", 4 quick batches); plus every profile of
+	// every other property (all oracles are evaluated in every run, and a
+	// schedule family built for another property can reach this one's
+	// subject from an unexpected side), 6 quick batches shared evenly.
+	type planItem struct {
+		name string
+		n    int
+	}
+	var plan []planItem
+	if *tier == "thorough" && *runsFlag == 0 {
+		for j, p := range spec.Profiles {
+			plan = append(plan, planItem{p.Name, int(float64(spec.QuickRuns*16)*spec.Shares[j] + 0.5)})
+		}
+		for j, p := range spec.Profiles {
+			plan = append(plan, planItem{p.Name + "+deep", int(float64(spec.QuickRuns*4)*spec.Shares[j] + 0.5)})
+		}
+		own := map[string]bool{}
+		for _, p := range spec.Profiles {
+			own[p.Name] = true
+		}
+		var others []string
+		for name := range engine.Profiles() {
+			if !own[name] {
+				others = append(others, name)
+			}
+		}
+		sort.Strings(others)
+		for _, name := range others {
+			plan = append(plan, planItem{name, spec.QuickRuns * 6 / len(others)})
+		}
+	} else {
+		for j, p := range spec.Profiles {
+			plan = append(plan, planItem{p.Name, int(float64(total)*spec.Shares[j] + 0.5)})
+		}
+	}
 	planned := 0
-	for j := range spec.Profiles {
-		planned += int(float64(total)*spec.Shares[j] + 0.5)
+	for i := range plan {
+		plan[i].n = int(float64(plan[i].n)**scale + 0.5)
+		planned += plan[i].n
+	}
+	if W > planned {
+		W = planned
 	}
 	fmt.Printf("check %s tier=%s VERIF_SEED=%d runs=%d workers=%d\n", prop, *tier, seed, planned, W)
 
@@ -163,13 +206,14 @@ func checkMain(args []string) int {
 	}
 	defer os.RemoveAll(tmp)
 	tasks := make([][]task, W)
-	for j, p := range spec.Profiles {
+	for j, it := range plan {
 		// shares are relative to the nominal run count and need not sum to one
-		n := int(float64(total)*spec.Shares[j] + 0.5)
+		n := it.n
 		for w := 0; w < W; w++ {
+			// rotate the starting worker so that small plan items do not all land on worker 0
 			a, b := n*w/W, n*(w+1)/W
 			if b > a {
-				tasks[w] = append(tasks[w], task{p.Name, a, b})
+				tasks[(w+j)%W] = append(tasks[(w+j)%W], task{it.name, a, b})
 			}
 		}
 	}
